@@ -1011,6 +1011,32 @@ def _find_self(
     return kwargs["self"]
 
 
+def decorate_with_checker_below_invariants(
+    func: CallableT,
+) -> Tuple[CallableT, CallableT]:
+    """
+    Wrap ``func`` with a contract checker and return the checker and the function to be used in place of ``func``.
+
+    If ``func`` has been already wrapped with the invariant checks of its class (a contract is added to a method after
+    the class has been decorated), the checker goes below the invariant checks: the invariants are checked before
+    the preconditions and after the postconditions.
+    """
+    wrapped = getattr(func, "__wrapped__", None)
+    if getattr(func, "__is_invariant_check__", False) and wrapped is not None:
+        checker = decorate_with_checker(func=wrapped)
+
+        name = getattr(func, "__name__", "")
+        if name == "__new__":
+            return checker, _decorate_new_with_invariants(new_func=checker)
+
+        return checker, _decorate_with_invariants(
+            func=checker, is_init=(name == "__init__"), name=name
+        )
+
+    checker = decorate_with_checker(func=func)
+    return checker, checker
+
+
 def rebuild_property(
     prop: property,
     fget: Optional[Callable[..., Any]],
